@@ -91,6 +91,9 @@ func (w *World) stuck() []string {
 			}
 		}
 		if w.Case.eligible(t) {
+			if len(hs) == 1 && w.ScrapeRound > 0 && w.ScrapedIn[h] != w.ScrapeRound {
+				out = append(out, fmt.Sprintf("not-scraped:eligible target %d is assigned to a shard but its Prometheus did not scrape it in the last round", h))
+			}
 			if len(hs) == 0 {
 				out = append(out, fmt.Sprintf("unscraped:eligible target %d (series %d total %d) is on no shard", h, t.Series, t.Total))
 			}
